@@ -130,6 +130,17 @@ def check(run):
         poll = rng.choice(["each", "rand", "rand", "end"])
         toks = schedule(rng, partition(rng, bs, style), poll)
         cases.append(dict(req=to_req(toks), coq=to_coq(toks), cat=f"{style}/{poll}", bs=bs))
+    # long inputs (buffer management that only shows beyond a few KiB: reclaim thresholds, ring growth):
+    # one write, big chunks, and chunks around powers of two, with pushes straddling every boundary
+    for ln, chunk in ((4200, None), (9000, None), (9000, 4096), (12000, 1000), (20000, 8192)) + (((70000, None), (70000, 65536)) if run.tier == "thorough" else ()):
+        bs = []
+        while len(bs) < ln:
+            bs += [rng.choice([0x61, 0x62, 0x7F, 0x60, 0x5B, 0x00, 0x01])] + []
+            k = bs[-1] - 0x5F if 0x60 <= bs[-1] <= 0x7F else 0
+            bs += [rng.randrange(256) for _ in range(k)]
+        parts = [bs] if chunk is None else [bs[i:i + chunk] for i in range(0, len(bs), chunk)]
+        toks = schedule(rng, parts, "each" if chunk else "end")
+        cases.append(dict(req=to_req(toks), coq=to_coq(toks), cat="long", bs=bs))
     if run.tier == "thorough":
         # exhaustive over all split points (two-way and three-way) of short strings
         for _ in range(40):
